@@ -102,7 +102,10 @@ let () =
            let q = Queue.create () in
            let edges = ref [] and nedges = ref 0 and nstates = ref 0 in
            let dead = ref 0 and races = ref 0 and races_c = ref 0 and early = ref 0 and badres = ref 0 in
-           let locs = List.concat (List.init n (fun j -> let j = nat_of_int j in [LState j; LAlpha j; LOut j])) @ [LX] in
+           (* races: the model of the code as it is (shared_common = false, one cholmod_common per worker) on EVERY location,
+              the caller's common and the per-worker commons included (C12_race_free);
+              races_common: the old shape (shared_common = true) on the caller's common (C12_refuted_race_common), information only *)
+           let locs = List.concat (List.init n (fun j -> let j = nat_of_int j in [LState j; LAlpha j; LOut j; LWCommon j])) @ [LX; LCommon] in
            Hashtbl.add seen (key init) (); Queue.add (init, []) q;
            while not (Queue.is_empty q) do
              let (s, rpath) = Queue.pop q in
@@ -110,7 +113,7 @@ let () =
              if stuckb nN nNa lt fixed s then incr dead;
              if finishedb s && result_str s <> spec_str then incr badres;
              List.iter (fun t1 -> List.iter (fun t2 -> if t1 < t2 then begin
-                 List.iter (fun l -> if raceb nN nNa lt fixed true s (nat_of_int t1) (nat_of_int t2) l then incr races) locs;
+                 List.iter (fun l -> if raceb nN nNa lt fixed false s (nat_of_int t1) (nat_of_int t2) l then incr races) locs;
                  if raceb nN nNa lt fixed true s (nat_of_int t1) (nat_of_int t2) LCommon then incr races_c end) tids) tids;
              (match s.cp with
               | CRead -> for j = 0 to n - 1 do
